@@ -1,8 +1,74 @@
 (** CmdC12.v — command table of the model runner for property C12
-    (commands 1200 .. 1299 of [run_cmd]; local number = c mod 100). *)
-From JSL Require Import Base.
+    (commands 1200 .. 1299 of [run_cmd]; local number = c mod 100).
+
+    *** 1: a feature-observer session as CmdC11's command 1, with one more
+    event for creation scripts that contain a [ResidualGraphUpdater]:
+      [4; rm_m; rm_j]   the updater's [_initialize_is_completed_observer_attribute]:
+                        nothing when both options are off, otherwise
+                        [create_or_get_observer(IsCompletedObserver, has_all_features,
+                        feature_types = MACHINES if rm_m, JOBS if rm_j)] — the first
+                        subscribed IsCompleted observer tracking those feature types,
+                        or a new one (constructor [f_new], dependencies included).
+    The updater itself is not part of this world (its model is Residual.v /
+    CmdC17's command 1); the event only accounts for the feature observers it
+    leaves subscribed. Either way the event is a constructor call of
+    FeatureObservers.v or nothing, so every session is a creation script in the
+    sense of properties/C12b.v.
+    [I; filters; events] -> one output per event: [result; subscriber system; rows].
+
+    *** 2: CmdC17's command 1 (the residual graph updater with the observers
+    it depends on, events = dispatches and resets) on a graph some of whose
+    nodes were removed BEFORE the updater was constructed on it
+    ([JobShopGraph.remove_node] on each listed id that is still present, in
+    order) — the reset theorem of C12b.v holds for ANY initial graph.
+    [I; fs; builder; pre; rm_m; rm_j; events; ids] -> as CmdC17's command 1. *)
+From JSL Require Import Base Instance Dstate Filters World Observers Session FeatureObservers CmdC11
+     Graph Residual CmdC16 CmdC17.
+
+Definition has_all (bm bj : bool) (o : fobs) : bool :=
+  fkind_eqb (fo_kind o) FIsCompleted && implb bm (isSome (fo_mach o)) && implb bj (isSome (fo_jobs o)).
+
+Definition updater_observer (I : instance) (bm bj : bool) (w : fwld) : fwld :=
+  if bm || bj then
+    match find_sub_f (sys_of w) (has_all bm bj) with
+    | Some _ => w
+    | None => fst (f_construct I FIsCompleted (mkftm false bm bj) None w)
+    end
+  else w.
+
+Definition f_event12 (I : instance) (ev : val) (w : fwld) : fwld * val :=
+  match asZ (vnth ev 0) with
+  | 4 => (updater_observer I (asB (vnth ev 1)) (asB (vnth ev 2)) w, VL [VI 0; VL []])
+  | _ => f_event I ev w
+  end.
+
+Fixpoint f_events12 (I : instance) (evs : list val) (w : fwld) : list val :=
+  match evs with
+  | [] => []
+  | ev :: t => let '(w', out) := f_event12 I ev w in
+               VL [out; enc_fsys (sys_of w'); enc_sched (sched (core w'))] :: f_events12 I t w'
+  end.
+
+Definition cmd_fsession12 (v : val) : val :=
+  let I := dec_instance (vnth v 0) in
+  let fs := asLof dec_fname (vnth v 1) in
+  VL (f_events12 I (asL (vnth v 2)) (fw fs (init_d I) empty_sys)).
+
+Definition cmd_run12 (v : val) : val :=
+  let I := dec_instance (vnth v 0) in
+  let fs := asLof dec_fname (vnth v 1) in
+  match build_by_code (asN (vnth v 2)) I with
+  | None => VL [VI 0]
+  | Some g0 =>
+      let g := fold_left remove_if_present (asLof asN (vnth v 7)) g0 in
+      let u := rgu_fresh I (asLof dec_pre (vnth v 3)) (asB (vnth v 4)) (asB (vnth v 5)) g in
+      let res := fold_left (run_event17 I u) (asL (vnth v 6)) (rg_world fs (init_d I) u, []) in
+      VL [VI 1; enc_state u; VL (snd res)]
+  end.
 
 Definition run_c12 (c : Z) (v : val) : val :=
   match c with
+  | 1 => cmd_fsession12 v
+  | 2 => cmd_run12 v
   | _ => VL []
   end.
